@@ -6,13 +6,12 @@ expected result; the oracle is World_L0 evaluated by TLC on the recorded trace.
 import random, zlib
 
 PATHS = {
-    "read": ["get", "wget", "gget", "gwget", "contains", "lend_get", "lend2_get", "r_get_other", "rl_get_other", "rm_get_other", "entry_get"],
+    "read": ["get", "wget", "gget", "gwget", "contains", "lend_get", "lend2_get", "r_get_other", "rl_get_other", "rm_get_other", "entry_get", "lentry_get", "lmaybe_get"],
     "write": ["get_mut", "gget_mut", "lend_get_mut", "rm_get_other_mut", "entry_get_mut", "entry_into_mut"],
     "insert": ["insert", "ginsert", "entry_replace", "entry_insert"],
     "orins": ["or_insert", "or_insert_with"],
-    "remove": ["remove", "entry_remove"],
+    "remove": ["remove", "entry_remove", "gremove"],
     "gmod": ["gmod"],
-    "gremove": ["gremove"],
 }
 ALL_PATHS = [p for v in PATHS.values() for p in v]
 
@@ -197,7 +196,7 @@ class Gen:
         r = self.r
         s = r.randrange(self.S)
         k = r.choice(["drain", "drain", "clear", "count", "join", "join", "joinmut", "joinmut", "joinmut", "joinent",
-                      "entries", "restrict", "restrict", "restrict", "slice", "slicemut", "setemit", "flagev"])
+                      "entries", "restrict", "restrict", "restrict", "slice", "slicemut", "setemit", "setemit", "flagev"])
         op = {"o": "wop", "k": k, "s": s}
         if k == "drain":
             op["n"] = r.choice([-1, -1, 0, 1, 2, 3])
@@ -419,7 +418,7 @@ def kind_churn_scripts(seed, per_kind, n_ops, tid0, kinds=None, far=False):
                 if x < 0.30:
                     ops.append({"o": "sop", "path": rng.choice(PATHS["insert"] + ["or_insert"]), "s": 0, "h": h})
                 elif x < 0.55:
-                    ops.append({"o": "sop", "path": rng.choice(PATHS["remove"] + ["gremove"]), "s": 0, "h": h})
+                    ops.append({"o": "sop", "path": rng.choice(PATHS["remove"]), "s": 0, "h": h})
                 elif x < 0.62:
                     ops.append({"o": "wop", "k": "clear", "s": 0})
                 elif x < 0.67:
@@ -433,9 +432,11 @@ def kind_churn_scripts(seed, per_kind, n_ops, tid0, kinds=None, far=False):
                 elif x < 0.97:
                     ops.append({"o": "wop", "k": rng.choice(["slice", "slice", "slicemut", "join", "count", "restrict", "entries", "joinent"]), "s": 0,
                                 "v": rng.choice(["read", "mut_join", "mut_lend", "lend", "join"]), "sel": rng.randrange(1 << 16), "wsel": rng.randrange(1 << 16)})
-                elif x < 0.985:
+                elif x < (0.985 if kind[:2] not in ("f_", "d_", "pf") else 0.995):
                     if rng.random() < 0.7:
-                        ops.append({"o": "wop", "k": "setemit", "s": 0, "b": rng.random() < 0.6})
+                        # (also redundant switches: off, off, on)
+                        for _ in range(rng.choice([1, 1, 2, 3])):
+                            ops.append({"o": "wop", "k": "setemit", "s": 0, "b": rng.random() < 0.5})
                     else:
                         ops.append({"o": "wop", "k": "flagev", "s": 0, "ev": rng.choice(["M", "I", "R"]), "id": rng.choice(keep)})
                 elif j % 4 == 1:
